@@ -475,17 +475,64 @@ Definition P_C15_hub (tr : list (xop * xobs)) : bool :=
   match P_hub_go 0 [] [] [] tr with None => true | Some _ => false end.
 
 (* ================================================================================= *)
+(*  hubs built from their configuration (NewHub)                                     *)
+(* ================================================================================= *)
+(* A configuration is the pair of texts of the options hashkey and blockkey of section
+   [sessions].  The key set of the hub is what model.SessionId.config_keyset makes of them;
+   a key is numbered by its own bytes (injective: key_num), so two configurations get the same
+   kspec exactly when the model gives them the same key set. *)
+Definition key_num (b : bytes) : N := fold_left (fun n c => (n * 256 + N_of_ascii c)%N) b 1%N.
+Definition cfg := (bytes * bytes)%type.
+Definition cfg_kspec (c : cfg) : option kspec :=
+  match config_keyset (fst c) (snd c) with
+  | Some ks => Some (key_num (hk ks), option_map key_num (bk ks))
+  | None => None
+  end.
+(* a configuration that NewHub refuses has no hub: the place in the list of key sets is filled
+   with a key set no hub has (key numbers are >= 1) and no operation may name it *)
+Definition no_kspec : kspec := (0%N, None).
+Definition cfg_kss (cs : list cfg) : list kspec :=
+  map (fun c => match cfg_kspec c with Some k => k | None => no_kspec end) cs.
+
+Fixpoint cfg_built_mismatches (id : N) (j : nat) (cs : list cfg) (built : list bool) : list (N * N * N) :=
+  match cs, built with
+  | [], [] => []
+  | c :: cs', b :: built' =>
+      (if Bool.eqb (match cfg_kspec c with Some _ => true | None => false end) b then [] else [(id, 1%N, N.of_nat j)])
+      ++ cfg_built_mismatches id (S j) cs' built'
+  | _, _ => [(id, 4%N, N.of_nat j)]
+  end.
+
+Definition cop_ks (o : cop) : nat :=
+  match o with CMint _ ks _ _ _ _ | CDec _ ks _ _ _ | CDecLax _ ks _ _ _ => ks end.
+Fixpoint cfg_ops_misplaced (id : N) (i : nat) (cs : list cfg) (tr : list (cop * cobs)) : list (N * N * N) :=
+  match tr with
+  | [] => []
+  | (o, _) :: rest =>
+      (match nth_error cs (cop_ks o) with
+       | Some c => match cfg_kspec c with Some _ => [] | None => [(id, 4%N, N.of_nat i)] end
+       | None => [(id, 4%N, N.of_nat i)]
+       end) ++ cfg_ops_misplaced id (S i) cs rest
+  end.
+
+(* ================================================================================= *)
 (*  cases                                                                            *)
 (* ================================================================================= *)
 (* mode 0: codec trace, compared with the model only (crafted strings)
    mode 1: codec trace, compared with the model and judged by P_C15
-   mode 2: hub trace (ncaches, cache size), compared with the model and judged by P_C15_hub *)
+   mode 2: hub trace (ncaches, cache size), compared with the model and judged by P_C15_hub
+   mode 3: codec trace on the codecs of hubs that NewHub built from the configurations [cfgs]
+           ([built]: NewHub returned a hub / an error); the key sets are the model's reading of
+           the configurations; compared with the model and judged by P_C15 *)
 Inductive case :=
 | CaseCodec (id : N) (mode : N) (kss : list kspec) (tr : list (cop * cobs))
-| CaseHub (id : N) (k : kspec) (ncaches size : nat) (tr : list (xop * xobs)).
+| CaseHub (id : N) (k : kspec) (ncaches size : nat) (tr : list (xop * xobs))
+| CaseConfig (id : N) (cfgs : list cfg) (built : list bool) (tr : list (cop * cobs)).
 
 Definition mkcodec := CaseCodec.
 Definition mkhub := CaseHub.
+Definition mkconfig := CaseConfig.
+Definition cf (h b : bytes) : cfg := (h, b).
 
 Definition judge (c : case) : list (N * N * N) :=
   match c with
@@ -498,6 +545,11 @@ Definition judge (c : case) : list (N * N * N) :=
   | CaseHub id k n size tr =>
       judge_hub id k 0 [] (hub_init n size) tr ++
       (match P_hub_go 0 [] [] [] tr with None => [] | Some i => [(id, 2%N, N.of_nat i)] end)
+  | CaseConfig id cfgs built tr =>
+      let kss := cfg_kss cfgs in
+      cfg_built_mismatches id 0 cfgs built ++ cfg_ops_misplaced id 0 cfgs tr ++
+      judge_codec id kss 0 [] tr ++
+      (match P_codec kss 0 [] [] tr with None => [] | Some i => [(id, 2%N, N.of_nat i)] end)
   end.
 
 Definition judge_all (cs : list case) : list (N * N * N) := flat_map judge cs.
